@@ -165,7 +165,7 @@ class G:
         for i in range(n or rng.randint(1, 4)):
             if i:
                 parts.append(rng.choice(MATH_OPS + [' ', ' ']))
-            parts.append(rng.choice(MATH_ATOMS))
+            parts.append(rng.choice(MATH_ATOMS) if rng.random() > 0.12 else rng.choice(['\\zzz', '\\foo', '\\mycmd']) + ' ')
             if rng.random() < 0.15:
                 parts.append(rng.choice(MATH_SPACES))
         return ' '.join(parts) if rng.random() < 0.7 else ''.join(parts)
